@@ -464,6 +464,11 @@ class Summarizer:
         ty = c['ty']
         k = ty.get('k')
         if 'fn' in c:
+            # a function item used as a value: remember where its resolution record lives
+            key = '%s|%s' % (c['fn'], c.get('fn_args', ''))
+            if key in fr.inst.get('fnitemmap', {}):
+                self._insts_by_id[id(fr.insts)] = fr.insts
+                return ('fn', norm_path(c['fn']), (id(fr.insts), fr.inst['idx'], key))
             return ('fn', norm_path(c['fn']))
         if 'promoted' in c:
             return ('promoted', c['promoted'])
@@ -818,32 +823,7 @@ class Summarizer:
         if not st.frames:
             st.done = ('ret', v)
             return [st]
-        caller = st.frames[-1]
-        target = fr.ret_target
-        if isinstance(target, tuple) and target[0] == 'stop':
-            # one iteration of a closure-driven loop (for_each / fold ...) has finished
-            st.done = ('closure_ret', v, target[1])
-            return [st]
-        if isinstance(target, tuple):
-            # continuation installed by a model: wrap the callee's result, then resume
-            _, kind, dest, target = target
-            tmp = fr.ret_dest[0]
-            if kind == 'err':
-                v = ('adt', 'core::result::Result', 1, (v,))
-            elif kind == 'ok':
-                v = ('adt', 'core::result::Result', 0, (v,))
-            elif kind == 'some':
-                v = ('adt', 'core::option::Option', 1, (v,))
-            elif kind == 'ref':
-                st.cells[tmp] = v
-                v = ('ref', tmp, ())
-            self.write_cell(st, dest[0], dest[1], v)
-        elif fr.ret_dest is not None:
-            cell, path = fr.ret_dest
-            self.write_cell(st, cell, path, v)
-        if target is None:
-            raise Infeasible()
-        return [self.goto(st, caller, target)]
+        return self.continue_with(st, v, fr.ret_dest, fr.ret_target)
 
     # ------------------------------------------------------------------ calls
     def exec_call(self, st, fr, term):
@@ -949,7 +929,7 @@ class Summarizer:
         while cv[0] == 'op' and cv[1] == 'ref':
             cv = cv[2][0]
         if cv[0] == 'fn':
-            raise Unsupported('call of fn item %s through Fn trait' % cv[1])
+            return self.call_fn_item(st, fr, cv, argtuple, dest, target)
         if cv[0] != 'closure' or cv[2] is None:
             return None
         insts_id, idx = cv[2]
@@ -957,6 +937,65 @@ class Summarizer:
         if idx is None:
             raise Unsupported('closure without instance record')
         return self.call_local(st, fr, insts, idx, [clo if clo[0] == 'ref' else cv, argtuple], dest, target)
+
+    def call_fn_item(self, st, fr, cv, argtuple, dest, target):
+        """Invoke a function item used as a value (`map_err(CIError::from)`, `unwrap_or_else(T::infinity)`,
+        `map_or(Unbounded, Included)`), resolved by the driver like a direct call."""
+        if len(cv) < 3:
+            raise Unsupported('call of fn item %s through Fn trait (no resolution record)' % cv[1])
+        iid, idx, key = cv[2]
+        insts = self._insts_by_id[iid]
+        rec = insts[idx]['fnitemmap'][key]
+        args = list(argtuple[1]) if argtuple[0] == 'tuple' else ([] if argtuple == UNIT else [argtuple])
+        if 'inst' in rec:
+            cdef = insts[rec['inst']]['def']
+            if self.stubs.get(cdef) is not None:
+                raise Unsupported('stubbed function %s used as a function value' % cv[1])
+            return self.call_local(st, fr, insts, rec['inst'], args, dest, target)
+        if 'ctor' in rec:
+            val = ('adt', norm_path(rec['ctor']['adt']), rec['ctor']['variant'], tuple(args))
+        else:
+            term = {'target': target, 'dest': None, 'args': [], 'line': '?'}
+            res = self.models.apply(st, fr, rec, args, None, term)
+            if len(res) != 1 or res[0][0] is not st or res[0][1] is None or st.done is not None:
+                raise Unsupported('function value %s: model with several outcomes' % cv[1])
+            val = res[0][1]
+        return self.continue_with(st, val, dest, target)
+
+    def continue_with(self, st, v, ret_dest, target):
+        """Deliver the value of a finished call to its continuation (shared by do_return)."""
+        caller = st.frames[-1]
+        if isinstance(target, tuple) and target[0] == 'stop':
+            st.done = ('closure_ret', v, target[1])
+            return [st]
+        if isinstance(target, tuple):
+            _, kind, dest, target = target
+            tmp = ret_dest[0]
+            if callable(kind):
+                # continuation given by a model as a function (state, callee result) -> [(state, value)]
+                out = []
+                for s2, v2 in kind(self, st, v):
+                    self.write_cell(s2, dest[0], dest[1], v2)
+                    if target is None:
+                        continue
+                    out.append(self.goto(s2, s2.frames[-1], target))
+                return out
+            if kind == 'err':
+                v = ('adt', 'core::result::Result', 1, (v,))
+            elif kind == 'ok':
+                v = ('adt', 'core::result::Result', 0, (v,))
+            elif kind == 'some':
+                v = ('adt', 'core::option::Option', 1, (v,))
+            elif kind == 'ref':
+                st.cells[tmp] = v
+                v = ('ref', tmp, ())
+            self.write_cell(st, dest[0], dest[1], v)
+        elif ret_dest is not None:
+            cell, path = ret_dest
+            self.write_cell(st, cell, path, v)
+        if target is None:
+            raise Infeasible()
+        return [self.goto(st, caller, target)]
 
     # ------------------------------------------------------------------ loops
     def loopinfo(self, body, key):
